@@ -57,6 +57,7 @@ class Frame:
         self.closure = closure
         self.strong = {}
         self.last_end = None
+        self.last_break_hit = False
         self.yields = None
         self.ycounts = None
         self.loopn = []
